@@ -3,9 +3,11 @@
    native types).  N, Z, positive, nat, ascii and string stay the extracted datatypes. *)
 Require Extraction.
 Require ExtrOcamlBasic.
-From KV Require Import Base.Prelude Keys.KeyModel Keyberon.Types Keyberon.Switch Keyberon.Layout.
+From KV Require Import Base.Prelude Keys.KeyModel Keyberon.Types Keyberon.Switch Keyberon.Layout
+  Parser.SwitchCompile Spec.BoolSpec.
 Extraction Language OCaml.
 Extraction "model.ml"
   layout_event layout_tick init_layout keycodes current_layer evaluate_boolean switch_actions
   os_from_u16 os_as_u16 osc_to_kc kc_to_osc kc_as_u16 str_to_oscode out_filter
+  compiles compile_case cases_spec
   N.add N.mul N.of_nat N.to_nat.
